@@ -45,6 +45,17 @@ class Ctx:
     def quick(self):
         return self.tier == "quick"
 
+    def sub(self, name):
+        """A child context working in <work>/<name> with its own violation list and coverage
+        (used by checks that run another module's machinery as a rider)."""
+        import copy
+        c = copy.copy(self)
+        c.work = os.path.join(self.work, name)
+        os.makedirs(c.work, exist_ok=True)
+        c.cov, c.assumptions, c.violations, c.known_hits = {}, [], [], []
+        c.rng = random.Random(self.seed)
+        return c
+
     # ---------------------------------------------------------------- TLC
     def _specdir(self, sub):
         d = os.path.join(self.work, sub)
